@@ -146,7 +146,9 @@ INTVALS = {
 }
 FLOATS = [0.0, -0.0, 5e-324, 2.2250738585072014e-308, 1.7976931348623157e308, 0.1, 1 / 3, 1234567.8901234567,
           -9.87654321e-5, 1e16, 123456789012345678.0, 2.5, -1.0]
-STRS = ["", "A", " lead", "trail ", " both ", "é€ß", "0", "  0", "x\ty", "{", "}", "\\U+00E4", "100%", "a" * 300]
+STRS = ["", "A", " lead", "trail ", " both ", "é€ß", "0", "  0", "x\ty", "{", "}", "\\U+00E4", "100%", "a" * 300,
+        # characters str.splitlines() treats as line boundaries but the DXF tag format does not
+        "a\u2028b", "a\u2029b", "a\x85b", "a\x0bb", "a\x0cb", "a\x1cb", "a\x1db", "a\x1eb"]
 
 
 def val_req(cls, v) -> str:
@@ -328,6 +330,48 @@ def correspond(ctx):
         cases.append((req, r, len(ts) > 2))
     ctx.correspond("X4 extended tags", "C03", cases, build=DRIVER_DEPS)
 
+    # --- X5: internal_tag_compiler line splitting (Tags.from_text / write_str paths)
+    from ezdxf.lldxf.tagger import internal_tag_compiler
+
+    cases = []
+    seps = ["\u2028", "\u2029", "\x85", "\x0b", "\x0c", "\x1c", "\x1d", "\x1e", "\r", " ", "x"]
+    for i in range(ctx.n(1500, 15000)):
+        n = rng.randrange(0, 5)
+        lines = []
+        for _ in range(n):
+            code = rng.choice([1, 2, 3, 8, 70, 1000, 0, 5])
+            val = "".join(rng.choice(["a", "7", rng.choice(seps), ""]) for _ in range(rng.randrange(0, 5)))
+            if code == 70:
+                val = str(rng.randrange(-5, 300))
+            lines += ["%3d" % code, val]
+        text = "\n".join(lines) + ("\n" if rng.random() < 0.7 and lines else "")
+        if rng.random() < 0.1 and lines:
+            text = text[: rng.randrange(len(text) + 1)]  # cut anywhere: odd line counts, broken codes
+        try:
+            out = "ok " + ";".join(f"{t.code}:{cps(str(t.value))}" for t in internal_tag_compiler(text))
+        except (ValueError, IndexError):
+            out = "err"
+        cases.append((f"internal|{cps(text)}", out, any(sp in text for sp in seps[:9])))
+    ctx.correspond("X5 internal compiler lines", "C03", cases, build=DRIVER_DEPS)
+
+    # --- X6: application data added to a NAMED subclass (placeholder outside the base class)
+    cases = []
+    for i in range(ctx.n(800, 8000)):
+        ts = gen_entity_tags(rng, malformed=False)
+        try:
+            x = ExtendedTags([DXFTag(c, v) for c, v in ts])
+        except DXFStructureError:
+            continue
+        sub = rng.randrange(0, len(x.subclasses))
+        grp = [(102, "{NEWAPP"), (330, "%X" % rng.randrange(1, 99)), (102, "}")]
+        req = "xtagsapp|" + ";".join(f"{c}:{cps(v)}" for c, v in ts) + f"|{sub}|" + ";".join(f"{c}:{cps(v)}" for c, v in grp)
+        # new_app_data() addresses subclasses by name; do what it does on the chosen subclass directly
+        x.appdata.append(type(x.subclasses[0])([DXFTag(c, v) for c, v in grp]))
+        x.subclasses[sub].append(DXFTag(102, len(x.appdata) - 1))
+        out = "ok " + ";".join(f"{t.code}:{cps(t.value)}" for t in x)
+        cases.append((req, out, sub > 0))
+    ctx.correspond("X6 app data in subclasses", "C03", cases, build=DRIVER_DEPS)
+
 
 def gen_entity_tags(rng, malformed=False):
     """a structured entity tag sequence: base class (+ app data), subclasses, embedded object, xdata"""
@@ -382,6 +426,10 @@ def oracle(ctx):
             return len(va) == len(vb) and all(struct.pack("<d", x) == struct.pack("<d", y) for x, y in zip(va, vb))
         if isinstance(va, float):
             return isinstance(vb, float) and struct.pack("<d", va) == struct.pack("<d", vb)
+        if isinstance(va, str) and isinstance(vb, str) and va != vb:
+            from ezdxf.lldxf.encoding import decode_dxf_unicode
+
+            vb = decode_dxf_unicode(vb)  # characters the code page cannot encode travel as \\U+XXXX (C09's subject)
         return type(va) is type(vb) and va == vb
 
     def join_bin(tags):
@@ -404,12 +452,12 @@ def oracle(ctx):
             return FLOATS
         if cls == "binary":
             return [bytes(rng.randrange(256) for _ in range(n)) for n in (1, 127, 128, 300, 600)]
-        strs = ["A", " lead", "trail ", "é€ß", 'q"uote', "back\\slash", "tab\there"] if code != 0 else ["LINE", "A"]
+        strs = ["A", " lead", "trail ", "é€ß", 'q"uote', "back\\slash", "tab\there", "u\u2028v", "n\x85l", "f\x0cf\x1cs"] if code != 0 else ["LINE", "A"]
         if code in T.HEX_HANDLE_CODES:
             strs = ["1F", "0", "ABCDEF"]
         return strs
 
-    formats = ["ascii", "bin2000", "bin12", "json", "jsonv"]
+    formats = ["ascii", "internal", "bin2000", "bin12", "json", "jsonv"]
 
     def roundtrip(fmt, tags):
         if fmt == "ascii":
@@ -417,7 +465,15 @@ def oracle(ctx):
             w = TagWriter(s)
             for t in tags:
                 w.write_tag(t)
-            return list(tag_compiler(ascii_tags_loader(io.StringIO(s.getvalue()))))
+            return list(tag_compiler(ascii_tags_loader(io.StringIO(s.getvalue(), newline="\n"))))
+        if fmt == "internal":  # Tags.from_text / write_str path: internal_tag_compiler on the ASCII writer's text
+            from ezdxf.lldxf.tagger import internal_tag_compiler
+
+            s = io.StringIO()
+            w = TagWriter(s)
+            for t in tags:
+                w.write_tag(t)
+            return list(internal_tag_compiler(s.getvalue()))
         if fmt in ("bin2000", "bin12"):
             s = io.BytesIO()
             # the loader derives the text encoding from the header: utf8 for AC1021+, cp1252 by default
@@ -496,8 +552,28 @@ def oracle(ctx):
         if not ok:
             ctx.fail(f"points/{fmt}/{[t.code for t in seq]}", f"{fmt}: {seq!r} read back as {back!r}"[:400],
                      {"op": "points", "fmt": fmt, "seq": [(t.code, list(t.value) if isinstance(t, DXFVertex) else t.value) for t in seq]})
-    # ExtendedTags: iter(setup(ts)) == ts
+    # ExtendedTags.new_app_data on base class and on named subclasses, then iterate / clone
     from ezdxf.lldxf.const import DXFStructureError
+
+    for i in range(ctx.n(600, 6000)):
+        ts = gen_entity_tags(rng, malformed=False)
+        try:
+            x = ExtendedTags([DXFTag(c, v) for c, v in ts])
+        except DXFStructureError:
+            continue
+        names = [sc[0].value for sc in x.subclasses[1:] if sc and sc[0].code == 100]
+        target = rng.choice([None] + names) if names else None
+        ctx.count("O4 new_app_data", (tuple(ts), target), target is not None)
+        try:
+            x.new_app_data("{VERIFAPP", [(330, "1F")], subclass_name=target)
+        except Exception:  # noqa
+            continue
+        for y, how in ((x, "iter"), (x.clone(), "clone")):
+            back = [(t.code, t.value) for t in y]
+            grp = [(102, "{VERIFAPP"), (330, "1F"), (102, "}")]
+            ok = all(isinstance(v, str) for c, v in back if c == 102) and any(back[j:j + 3] == grp for j in range(len(back)))
+            if not ok:
+                ctx.fail(f"new_app_data/{how}/{'base' if target is None else 'subclass'}", f"new_app_data(subclass_name={target!r}) then {how}: {back}"[:300], {"op": "newapp", "tags": ts, "sub": target})
 
     for i in range(ctx.n(3000, 30000)):
         ts = gen_entity_tags(rng, malformed=rng.random() < 0.15)
